@@ -54,7 +54,10 @@ type kvElection struct {
 
 	wg sync.WaitGroup
 
-	ctx    context.Context
+	// ctxVal holds the election context (a ctxBox). It is written by Start and
+	// StopWithContext and read by every background goroutine, also for logging,
+	// without the election mutex: hence an atomic value and not a plain field.
+	ctxVal atomic.Value
 	cancel context.CancelFunc
 
 	// termCancel cancels the context of the current leadership term (the
@@ -70,6 +73,21 @@ type kvElection struct {
 	disconnectHandler *disconnectHandler
 
 	healthFailureCount atomic.Int32
+}
+
+type ctxBox struct{ ctx context.Context }
+
+// context returns the election context: nil before the first Start and after a
+// completed StopWithContext.
+func (e *kvElection) context() context.Context {
+	if b, ok := e.ctxVal.Load().(ctxBox); ok {
+		return b.ctx
+	}
+	return nil
+}
+
+func (e *kvElection) setContext(ctx context.Context) {
+	e.ctxVal.Store(ctxBox{ctx: ctx})
 }
 
 // leadershipPayload represents the value stored in the leadership key
@@ -193,11 +211,13 @@ func (e *kvElection) Start(ctx context.Context) error {
 	e.mu.Lock()
 	defer e.mu.Unlock()
 
-	if e.ctx != nil && e.ctx.Err() == nil {
+	if cur := e.context(); cur != nil && cur.Err() == nil {
 		return ErrAlreadyStarted
 	}
 
-	e.ctx, e.cancel = context.WithCancel(ctx)
+	electionCtx, cancel := context.WithCancel(ctx)
+	e.setContext(electionCtx)
+	e.cancel = cancel
 
 	if e.connectionMonitor != nil {
 		if err := e.connectionMonitor.Start(ctx); err != nil {
@@ -334,7 +354,7 @@ func (e *kvElection) attemptAcquire() error {
 	if err != nil {
 		log := e.getLogger()
 		log.Error("acquire_failed",
-			append(e.logWithContext(e.ctx),
+			append(e.logWithContext(e.context()),
 				zap.Error(err),
 				zap.String("error_type", "marshal_error"),
 			)...,
@@ -356,7 +376,7 @@ func (e *kvElection) attemptAcquire() error {
 
 		log := e.getLogger()
 		log.Debug("acquire_failed",
-			append(e.logWithContext(e.ctx),
+			append(e.logWithContext(e.context()),
 				zap.Error(err),
 				zap.String("error_type", classifyErrorType(err)),
 			)...,
@@ -368,7 +388,7 @@ func (e *kvElection) attemptAcquire() error {
 
 	log := e.getLogger()
 	log.Info("acquire_success",
-		append(e.logWithContext(e.ctx),
+		append(e.logWithContext(e.context()),
 			zap.String("token", token),
 			zap.Uint64("revision", rev),
 		)...,
@@ -398,7 +418,7 @@ func (e *kvElection) becomeLeader(token string, rev uint64) {
 	if fromState == StateStopped {
 		log := e.getLogger()
 		log.Warn("acquire_completed_after_stop_ignored",
-			append(e.logWithContext(e.ctx),
+			append(e.logWithContext(e.context()),
 				zap.Uint64("revision", rev),
 			)...,
 		)
@@ -413,7 +433,7 @@ func (e *kvElection) becomeLeader(token string, rev uint64) {
 	if e.isLeader.Load() {
 		log := e.getLogger()
 		log.Warn("acquire_completed_while_leader_ignored",
-			append(e.logWithContext(e.ctx),
+			append(e.logWithContext(e.context()),
 				zap.Uint64("revision", rev),
 			)...,
 		)
@@ -439,7 +459,7 @@ func (e *kvElection) becomeLeader(token string, rev uint64) {
 
 	log := e.getLogger()
 	log.Info("state_transition",
-		append(e.logWithContext(e.ctx),
+		append(e.logWithContext(e.context()),
 			zap.String("from_state", fromState),
 			zap.String("to_state", StateLeader),
 			zap.String("token", token),
@@ -451,7 +471,7 @@ func (e *kvElection) becomeLeader(token string, rev uint64) {
 	// the term (demotion for any reason, or Stop through the parent context), so
 	// that loops of an earlier term cannot survive into a later one and work
 	// bound to the OnPromote context never outlives the leadership.
-	termCtx, termCancel := context.WithCancel(e.ctx)
+	termCtx, termCancel := context.WithCancel(e.context())
 	if e.termCancel != nil {
 		e.termCancel()
 	}
@@ -469,9 +489,9 @@ func (e *kvElection) becomeLeader(token string, rev uint64) {
 		e.validationLoop(termCtx)
 	}()
 
-	if e.onPromote != nil {
+	if onPromote := e.onPromote; onPromote != nil {
 		log.Info("leader_promoted",
-			append(e.logWithContext(e.ctx),
+			append(e.logWithContext(e.context()),
 				zap.String("token", token),
 			)...,
 		)
@@ -482,7 +502,7 @@ func (e *kvElection) becomeLeader(token string, rev uint64) {
 				if r := recover(); r != nil {
 					log := e.getLogger()
 					log.Error("onpromote_callback_panic",
-						append(e.logWithContext(e.ctx),
+						append(e.logWithContext(e.context()),
 							zap.Any("panic", r),
 						)...,
 					)
@@ -490,7 +510,7 @@ func (e *kvElection) becomeLeader(token string, rev uint64) {
 			}()
 			promoteCtx, cancel := context.WithCancel(termCtx)
 			defer cancel()
-			e.onPromote(promoteCtx, token)
+			onPromote(promoteCtx, token)
 		}()
 	}
 }
@@ -553,7 +573,7 @@ func (e *kvElection) attemptPriorityTakeover(payloadBytes []byte) error {
 
 	log := e.getLogger()
 	log.Warn("priority_takeover_success",
-		append(e.logWithContext(e.ctx),
+		append(e.logWithContext(e.context()),
 			zap.String("previous_leader", currentPayload.ID),
 			zap.Int("previous_priority", currentPayload.Priority),
 			zap.Int("our_priority", e.cfg.Priority),
@@ -631,19 +651,19 @@ func (e *kvElection) becomeFollowerLocked() bool {
 
 	log := e.getLogger()
 	log.Info("state_transition",
-		append(e.logWithContext(e.ctx),
+		append(e.logWithContext(e.context()),
 			zap.String("from_state", fromState),
 			zap.String("to_state", StateFollower),
 		)...,
 	)
 
-	if e.ctx != nil && !e.watcherRunning.Load() {
+	if electionCtx := e.context(); electionCtx != nil && !e.watcherRunning.Load() {
 		e.watcherRunning.Store(true)
 		e.wg.Add(1)
 		go func() {
 			defer e.watcherRunning.Store(false)
 			defer e.wg.Done()
-			e.watchLoop(e.ctx)
+			e.watchLoop(electionCtx)
 		}()
 	}
 
@@ -653,12 +673,13 @@ func (e *kvElection) becomeFollowerLocked() bool {
 func (e *kvElection) Stop() error {
 	e.mu.Lock()
 
-	if e.ctx == nil {
+	if e.context() == nil {
 		e.mu.Unlock()
 		return ErrAlreadyStopped
 	}
 
 	wasLeader := e.isLeader.Load()
+	onDemote := e.onDemote
 
 	currentState := StateInit
 	if s := e.state.Load(); s != nil {
@@ -696,7 +717,7 @@ func (e *kvElection) Stop() error {
 
 	log := e.getLogger()
 	log.Info("election_stopped",
-		append(e.logWithContext(e.ctx),
+		append(e.logWithContext(e.context()),
 			zap.Bool("was_leader", wasLeader),
 		)...,
 	)
@@ -716,13 +737,13 @@ func (e *kvElection) Stop() error {
 	case <-time.After(5 * time.Second):
 	}
 
-	if wasLeader && e.onDemote != nil {
+	if wasLeader && onDemote != nil {
 		log.Info("leader_demoted",
-			append(e.logWithContext(e.ctx),
+			append(e.logWithContext(e.context()),
 				zap.String("reason", "stop"),
 			)...,
 		)
-		e.onDemote()
+		onDemote()
 	}
 
 	return nil
@@ -731,7 +752,7 @@ func (e *kvElection) Stop() error {
 func (e *kvElection) StopWithContext(ctx context.Context, opts StopOptions) error {
 	e.mu.Lock()
 
-	if e.ctx == nil {
+	if e.context() == nil {
 		e.mu.Unlock()
 		return ErrAlreadyStopped
 	}
@@ -817,7 +838,7 @@ func (e *kvElection) StopWithContext(ctx context.Context, opts StopOptions) erro
 	}
 
 	e.mu.Lock()
-	e.ctx = nil
+	e.setContext(nil)
 	e.mu.Unlock()
 
 	log := e.getLogger()
@@ -870,7 +891,11 @@ func (e *kvElection) StopWithContext(ctx context.Context, opts StopOptions) erro
 		}
 	}
 
-	if wasLeader && e.onDemote != nil {
+	e.mu.RLock()
+	hasOnDemote := e.onDemote != nil
+	e.mu.RUnlock()
+
+	if wasLeader && hasOnDemote {
 		log := e.getLogger()
 		log.Info("leader_demoted",
 			append(e.logWithContext(ctx),
